@@ -198,6 +198,10 @@ where
 def setDestinationRules (enhanced guard : Bool) (m : Mesh) (drs : List DR) : DRIndex :=
   (sortDRs drs).foldl (drStep enhanced guard m) {}
 
+/-- `rule.Host = ResolveShortnameToFQDN(rule.Host, meta)` (first statement of the loop of
+    `setDestinationRules`) -/
+def resolveDRHost (d : DR) : DR := { d with host := resolveShort d.ns d.host }
+
 /-- `host.MoreSpecific` restricted to two wildcard names -/
 def moreSpecificW (a b : String) : Bool :=
   if a.toList.length == b.toList.length then a < b else a.toList.length > b.toList.length
@@ -246,6 +250,14 @@ def destinationRule (m : Mesh) (idx : DRIndex) (proxyNs : String) (s : Svc) : Li
     let fromSvc := if s.ns != "" then exportedDRFrom idx s.ns s.hostname proxyNs else []
     if !fromSvc.isEmpty then fromSvc
     else exportedDRFrom idx m.rootNs s.hostname proxyNs
+
+/-- `PushContext.destinationRule` for a service object without attributes (only a hostname): the service
+    namespace is that of the first service of that hostname exported to the proxy's namespace -/
+def destinationRuleForHost (m : Mesh) (svcs : List Svc) (idx : DRIndex) (proxyNs h : String) : List CDR :=
+  let svcNs := match (servicesExportedToNamespace m svcs proxyNs).find? (fun s => s.hostname == h && s.ns != "") with
+    | some s => s.ns
+    | none => ""
+  destinationRule m idx proxyNs { (default : Svc) with hostname := h, ns := svcNs }
 
 /-- `SidecarScope.selectDestinationRules`: hostname -> consolidated rules (non-empty only) -/
 def selectDestinationRules (m : Mesh) (idx : DRIndex) (cfgNs : String) (services : List Svc) : List (String × List CDR) :=
